@@ -165,14 +165,21 @@ CHECKS = {
             "old and new metadata after JSON parsing, checking delegated files byte-for-byte and loading the result with the "
             "real client; the model is run on the abstracted views.",
             NOTE + " The model represents verbatim-copied components by identities (hash of the JSON value).", "5/C17"),
-    "C19": ("Coq proofs tying the cache's file names to the names the client fetched its trusted documents under, plain-entry "
-            "and distinctness of cached role file names, completeness of the root chain; end-to-end cache / reload runs",
-            "Theorems: the files copied as timestamp, snapshot and targets are those whose contents the client trusts; cached "
+    "C19": ("Coq proofs: server extensionality of the update cycle, the cached copy as a server, replay of a successful "
+            "cycle on the copy; file-name lemmas for what the cache writes; end-to-end cache / reload runs",
+            "Theorems (all repositories, datastores, configurations; model with all repairs): a successful cycle can be repeated "
+            "on the cached copy - the files the unchanged source serves under exactly the names the cache writes - by a client "
+            "with the same shipped root, configuration and clock and an empty datastore, and yields the very same repository "
+            "record (root, timestamp, snapshot, targets with the whole loaded delegation tree); likewise without the root chain "
+            "for a client whose shipped root is the trusted root (C19_copy_loads, C19_copy_loads_no_chain); the outcome of a "
+            "cycle depends on the server only through the answers to its requests (C19_server_extensionality, every variant of "
+            "the model); the files copied as timestamp, snapshot and targets are those whose contents the client trusts; cached "
             "delegated-role names are plain directory entries and pairwise distinct; every root version 1..N is written when "
-            "the chain is requested; cached targets go through save_target (C06/C08: verified-only, confined). Partial: "
-            "'the copy loads with identical versions and targets read back identical' is established by the runs (odd role "
-            "and target names, subsets, root chains, corrupted sources, both settings, directory listings), not proved for "
-            "the composed system. Known finding: url_encoded_target_name.",
+            "the chain is requested; cached targets go through save_target (C06/C08: verified-only, confined). Partial: that "
+            "the real cache writes those files (its own size limits and the presence of every <v>.root.json on the source are "
+            "not modelled: a cache that fails is outside the theorem) and that targets read back identical is established by "
+            "the runs (odd role and target names, subsets, root chains, corrupted sources, both settings, directory listings). "
+            "Known finding: url_encoded_target_name.",
             NOTE + MODELLED, "5/C19"),
     "C12": ("Coq proofs about a schema-level model of serde parse-and-reserialise (project) and the canonical formatter, "
             "including injectivity of the canonical form; differential correspondence between model and implementation "
